@@ -75,6 +75,7 @@ var Mutants = map[string][]Mutant{
 	"C09": {
 		{"SplitAt reads the whole path's data", "path.go", `cp := Point\{ps\.d\[i\+1\], ps\.d\[i\+2\]\}\n\t\t\t\tend = Point\{ps\.d\[i\+3\], ps\.d\[i\+4\]\}\n\n\t\t\t\tif j == len\(ts\) \{\n\t\t\t\t\tq\.QuadTo`, "cp := Point{p.d[i+1], p.d[i+2]}\n\t\t\t\tend = Point{ps.d[i+3], ps.d[i+4]}\n\n\t\t\t\tif j == len(ts) {\n\t\t\t\t\tq.QuadTo", "E2.cursor-domain"},
 		{"Reverse ends a quad record with LineToCmd", "path.go", `q\.d = append\(q\.d, QuadToCmd, cx, cy, end\.X, end\.Y, QuadToCmd\)`, `q.d = append(q.d, QuadToCmd, cx, cy, end.X, end.Y, LineToCmd)`, "E2.record"},
+		{"post-advance quad case reads the cubic's control point offset", "path.go", `\t\tcp := Point\{p\.d\[i-5\], p\.d\[i-4\]\}\n\t\treturn quadraticBezierDeriv`, "\t\tcp := Point{p.d[i-7], p.d[i-6]}\n\t\treturn quadraticBezierDeriv", "E2.layout"},
 		{"quad case reads offset 5", "path.go", `\t\tcase QuadToCmd:\n\t\t\tcp := Point\{p\.d\[i\+1\], p\.d\[i\+2\]\}\n\t\t\tend = Point\{p\.d\[i\+3\], p\.d\[i\+4\]\}\n\t\t\txmin = math\.Min\(xmin, math\.Min\(cp\.X, end\.X\)\)`, "\t\tcase QuadToCmd:\n\t\t\tcp := Point{p.d[i+1], p.d[i+2]}\n\t\t\tend = Point{p.d[i+5], p.d[i+6]}\n\t\t\txmin = math.Min(xmin, math.Min(cp.X, end.X))", "E2.layout"},
 	},
 	"C10": {
@@ -91,6 +92,8 @@ var Mutants = map[string][]Mutant{
 		{"number table larger than the buffer", "path.go", `\t\t'A': 7,\n`, "\t\t'A': 8,\n", "E4.table-bound"},
 	},
 	"C12": {
+		{"PS fill colour set after gsave", "renderers/ps/ps.go", `\t\tr\.setPaint\(style\.Fill\)\n\t\tif style\.HasStroke\(\) && !strokeUnsupported \{\n\t\t\tr\.w\.Write\(\[\]byte\(" gsave"\)\)\n\t\t\}\n`, "\t\tif style.HasStroke() && !strokeUnsupported {\n\t\t\tr.w.Write([]byte(\" gsave\"))\n\t\t}\n\t\tr.setPaint(style.Fill)\n", "E6.ps-grammar"},
+		{"PDF image opacity set inside q/Q again", "renderers/pdf/writer.go", `\tm = m\.Scale\(float64\(size\.X\), float64\(size\.Y\)\)\n\tfmt\.Fprintf\(w, " %v %v %v %v %v %v cm /%v Do Q"`, "\tm = m.Scale(float64(size.X), float64(size.Y))\n\tw.SetAlpha(0.5)\n\tfmt.Fprintf(w, \" %v %v %v %v %v %v cm /%v Do Q\"", "E5.grammar"},
 		{"SVG fall-back dashes unscaled", "renderers/svg/svg.go", `dashOffset, dashes := canvas\.ScaleDash\(style\.StrokeWidth, style\.DashOffset, style\.Dashes\)\n\t\t\tstroke = stroke\.Dash\(dashOffset, dashes\.\.\.\)`, `stroke = stroke.Dash(style.DashOffset, style.Dashes...)`, "E6.dash-scale"},
 		{"PS round cap emits code 2", "renderers/ps/ps.go", `fmt\.Fprintf\(r\.w, " 1 setlinecap"\)`, `fmt.Fprintf(r.w, " 2 setlinecap")`, "E6.enum"},
 		{"PS fall-back outline not transformed", "renderers/ps/ps.go", `r\.w\.Write\(\[\]byte\(path\.Transform\(m\)\.ToPS\(\)\)\)`, `r.w.Write([]byte(path.ToPS()))`, "E6.transform"},
@@ -98,6 +101,7 @@ var Mutants = map[string][]Mutant{
 		{"PS eofill outside its guard", "renderers/ps/ps.go", `r\.w\.Write\(\[\]byte\(" fill"\)\)\n\t\t\}\n\t\tif style\.HasStroke\(\) && !strokeUnsupported \{\n\t\t\tr\.w\.Write\(\[\]byte\(" grestore"\)\)`, "r.w.Write([]byte(\" eofill\"))\n\t\t}\n\t\tif style.HasStroke() && !strokeUnsupported {\n\t\t\tr.w.Write([]byte(\" grestore\"))", "E6.enum"},
 	},
 	"C13": {
+		{"font object slot reserved only for a new subsetter", "renderers/pdf/writer.go", `\tw\.objOffsets = append\(w\.objOffsets, 0\)\n\tref := pdfRef\(len\(w\.objOffsets\)\)\n\tfonts\[font\] = ref\n\tif _, ok := w\.fontSubset\[font\]; !ok \{\n`, "\tif _, ok := w.fontSubset[font]; !ok {\n\t\tw.objOffsets = append(w.objOffsets, 0)\n\t}\n\tref := pdfRef(len(w.objOffsets))\n\tfonts[font] = ref\n\tif _, ok := w.fontSubset[font]; !ok {\n", "E5.fresh-ref"},
 		{"Subject filled from title", "renderers/pdf/writer.go", `info\["Subject"\] = encode\(w\.subject\)`, `info["Subject"] = encode(w.title)`, "E5.metadata"},
 		{"Length of the unfiltered stream", "renderers/pdf/writer.go", `v\.dict\["Length"\] = len\(b\)`, `v.dict["Length"] = len(v.stream)`, "E5.length"},
 		{"vertical fonts written as horizontal", "renderers/pdf/writer.go", `w\.writeFonts\(w\.fontsV, true\)`, `w.writeFonts(w.fontsV, false)`, "E5.fontmaps"},
@@ -108,6 +112,9 @@ var Mutants = map[string][]Mutant{
 		{"stroke keeps even-odd star", "renderers/pdf/pdf.go", `\t\t\tif closed \{\n\t\t\t\tr\.w\.Write\(\[\]byte\(" s"\)\)\n\t\t\t\} else \{\n\t\t\t\tr\.w\.Write\(\[\]byte\(" S"\)\)\n\t\t\t\}\n\t\t\} else if style\.HasFill\(\) && style\.HasStroke\(\) \{`, "\t\t\tif closed {\n\t\t\t\tr.w.Write([]byte(\" s\"))\n\t\t\t} else {\n\t\t\t\tr.w.Write([]byte(\" S\"))\n\t\t\t}\n\t\t\tif style.FillRule == canvas.EvenOdd {\n\t\t\t\tr.w.Write([]byte(\"*\"))\n\t\t\t}\n\t\t} else if style.HasFill() && style.HasStroke() {", "E5.grammar"},
 	},
 	"C14": {
+		{"gradient sampled at pixel coordinates", "renderers/rasterizer/rasterizer.go", `return gradient\.At\(float64\(x\)/dpmm, float64\(size\.Y-y\)/dpmm\)\n\t\t\t\}\)\)\n\t\t\tfill\.`, "return gradient.At(float64(x), float64(size.Y-y)/dpmm)\n\t\t\t}))\n\t\t\tfill.", "E12.units"},
+		{"scanner fed millimetres", "path.go", `ras\.Start\(fixedPoint26_6\(p\.d\[i\+1\]\*dpmm, dy-p\.d\[i\+2\]\*dpmm\)\)`, "ras.Start(fixedPoint26_6(p.d[i+1], dy-p.d[i+2]*dpmm))", "E12.units"},
+		{"image height scaled twice", "path.go", `ras\.Line\(fixedPoint26_6\(q\.d\[j\+1\]\*dpmm, dy-q\.d\[j\+2\]\*dpmm\)\)`, "ras.Line(fixedPoint26_6(q.d[j+1]*dpmm, dy*dpmm-q.d[j+2]*dpmm))", "E12.units"},
 		{"stroke scanned with the fill rule", "renderers/rasterizer/rasterizer.go", `\t\tr\.scanner\.SetWinding\(true\)\n`, ``, "E6.winding-mode"},
 		{"rasterizer transforms the caller's path", "renderers/rasterizer/rasterizer.go", `fill = path\.Copy\(\)\.Transform\(m\)`, `fill = path.Transform(m)`, "E1.render-pure"},
 		{"gradient stops converted in place", "colors.go", `\tgradient := \*g\n\tgradient\.Stops = stops\n\treturn &gradient\n\}\n\n// At returns the color at position \(x,y\)\.\nfunc \(g \*LinearGradient\)`, "\tgradient := *g\n\tgradient.Stops = stops\n\tg.Stops[0] = stops[0]\n\treturn &gradient\n}\n\n// At returns the color at position (x,y).\nfunc (g *LinearGradient)", "E1.render-pure"},
@@ -123,6 +130,8 @@ var Mutants = map[string][]Mutant{
 		{"setter writes the stack", "canvas.go", `func \(c \*Context\) SetStrokeWidth\(width float64\) \{\n`, "func (c *Context) SetStrokeWidth(width float64) {\n\tc.stack = nil\n", "E11.ctx-setter"},
 	},
 	"C16": {
+		{"breakpoint width without the hyphen", "text/linebreak.go", `\t\t\twidth := lb\.W\n\t\t\tif lb\.items\[b\]\.Type == PenaltyType \{\n\t\t\t\twidth \+= lb\.items\[b\]\.Width\n\t\t\t\}\n`, "\t\t\twidth := lb.W\n", "E11.break-width"},
+		{"penalty width taken from the previous item", "text/linebreak.go", `\t\t\t\twidth \+= lb\.items\[b\]\.Width\n`, "\t\t\t\twidth += lb.items[b-1].Width\n", "E11.break-width"},
 		{"line ascent and descent exchanged", "text.go", `\t\t\t\tascent = math\.Max\(ascent, spanAscent\)\n\t\t\t\tdescent = math\.Max\(descent, spanDescent\)\n\t\t\t\tbottom = math\.Max\(bottom, spanBottom\)\n\t\t\t\} else \{\n\t\t\t\tfor _, obj`, "\t\t\t\tascent = math.Max(ascent, spanDescent)\n\t\t\t\tdescent = math.Max(descent, spanAscent)\n\t\t\t\tbottom = math.Max(bottom, spanBottom)\n\t\t\t} else {\n\t\t\t\tfor _, obj", "E3.line-heights"},
 		{"line bottom takes the minimum", "text.go", `\t\t\t\t\tbottom = math\.Max\(bottom, spanDescent\+lineSpacing\)`, "\t\t\t\t\tbottom = math.Min(bottom, spanDescent+lineSpacing)", "E3.line-heights"},
 		{"Text.Heights uses the first line's top", "text.go", `\t_, ascent, _, _ := firstLine\.Heights\(t\.WritingMode\)`, "\tascent, _, _, _ := firstLine.Heights(t.WritingMode)", "E3.line-heights"},
@@ -132,6 +141,7 @@ var Mutants = map[string][]Mutant{
 		{"Linebreak looks at items[b+1] unguarded", "text/linebreak.go", `\(len\(lb\.items\) <= b\+1 \|\| lb\.items\[b\+1\]\.Type != PenaltyType\)`, `lb.items[b+1].Type != PenaltyType`, "E4.neighbour-guard"},
 	},
 	"C18": {
+		{"subsetter re-created per writing direction", "renderers/pdf/writer.go", `\tif _, ok := w\.fontSubset\[font\]; !ok \{\n(.*\n)?\t\tw\.fontSubset\[font\] = canvas\.NewFontSubsetter\(\)\n\t\}\n`, "\tw.fontSubset[font] = canvas.NewFontSubsetter()\n", "E5.subset-once"},
 		{"subsetter starts empty", "font.go", `IDs:   \[\]uint16\{0\}, // \.notdef should always be at zero`, `IDs:   []uint16{},`, "E11.subsetter"},
 		{"Get records the mapping before appending", "font.go", `\tsubsetGlyphID := uint16\(len\(subsetter\.IDs\)\)\n\tsubsetter\.IDs = append\(subsetter\.IDs, glyphID\)\n`, "\tsubsetter.IDs = append(subsetter.IDs, glyphID)\n\tsubsetGlyphID := uint16(len(subsetter.IDs))\n", "E11.subsetter"},
 		{"vertical fonts written as horizontal", "renderers/pdf/writer.go", `w\.writeFonts\(w\.fontsV, true\)`, `w.writeFonts(w.fontsV, false)`, "E5.fontmaps"},
